@@ -11,6 +11,7 @@ import FFVerif.Props.C05
 import FFVerif.Props.C06
 import FFVerif.Props.C07
 import FFVerif.Props.C09
+import FFVerif.Props.C16
 import FFVerif.Model.Miner
 import FFVerif.Props.C19
 import FFVerif.Props.C20
@@ -72,6 +73,28 @@ def handle (toks : List String) : Option String :=
   | ["c20tables"] =>
     some (" ".intercalate (Gen.diffTables.map (fun t =>
       s!"{t.1}:{t.2.1}:{if C20.momentOK t.1 t.2.1 t.2.2.1 t.2.2.2 then 1 else 0}")))
+  | ["ar", n, obs, phis, eps] => do
+    some (showList (Arma.ar (← n.toNat?) (← parseList obs) (← parseList phis) (← parseList eps)))
+  | ["ma", n, c, thetas, eps] => do
+    some (showList (Arma.ma (← n.toNat?) (← parseInt? c) (← parseList thetas) (← parseList eps)))
+  | ["arma", n, obs, phis, thetas, eps] => do
+    some (showList (Arma.arma (← n.toNat?) (← parseList obs) (← parseList phis) (← parseList thetas) (← parseList eps)))
+  | ["arima", n, c, phis, thetas, eps] => do
+    some (showList (Arma.arima (← n.toNat?) (← parseInt? c) (← parseList phis) (← parseList thetas) (← parseList eps)))
+  | ["walk", dim, rs] => do
+    let path := Arma.walk (← dim.toNat?) (← parseNatList rs)
+    some (";".intercalate (path.map showList))
+  | ["c16ar", n, obs, phis, eps, out] => do
+    some (if C16.arOK (← n.toNat?) (← parseList obs) (← parseList phis) (← parseList eps) (← parseList out) then "ok" else "fail:recurrence")
+  | ["c16ma", n, c, thetas, eps, out] => do
+    some (if C16.maOK (← n.toNat?) (← parseInt? c) (← parseList thetas) (← parseList eps) (← parseList out) then "ok" else "fail:recurrence")
+  | ["c16arma", n, obs, phis, thetas, eps, out] => do
+    some (if C16.armaOK (← n.toNat?) (← parseList obs) (← parseList phis) (← parseList thetas) (← parseList eps) (← parseList out) then "ok" else "fail:recurrence")
+  | ["c16arima", n, c, phis, thetas, eps, out] => do
+    some (if C16.arimaOK (← n.toNat?) (← parseInt? c) (← parseList phis) (← parseList thetas) (← parseList eps) (← parseList out) then "ok" else "fail:recurrence")
+  | ["c16walk", n, dim, path] => do
+    let rows ← (if path == "-" then some [] else (path.splitOn ";").mapM parseList)
+    some (if C16.walkOK (← n.toNat?) (← dim.toNat?) rows then "ok" else "fail:walk")
   | "c09lin" :: args => do
     let a ← parseFloats args
     if a.size = 5 then some s!"{(C09.linearResidual a[0]! a[1]! a[2]! a[3]! a[4]!).toBits.toNat}" else none
